@@ -146,7 +146,11 @@ def gen(
 
     global__all__ = []
     content = "{prepend}{imports}\n{functions_and_classes}\n{__all}".format(
-        prepend="" if prepend is None else prepend,
+        prepend=""
+        if not prepend
+        else prepend
+        if prepend.endswith("\n")
+        else "{}\n".format(prepend),
         imports=imports,  # TODO: Optimize imports programmatically (akin to `autoflake --remove-all-unused-imports`)
         functions_and_classes="\n\n".join(
             print("Generating: {!r}".format(name))
